@@ -155,6 +155,9 @@ func (c *c15) history(hidx int) {
 
 	// generate the history
 	n := r.Range(30, 70)
+	// the first `pre` events happen before the sessions run (configured sessions are not up yet;
+	// BFD messages among them are skipped)
+	pre := r.Range(0, 4)
 	var evs []ldEvent
 	bfdIfs := []uint16{ifP, ifC, ifC2, ifK, ifK2, ifSC, ifSP, ifSK}
 	hot := bfdIfs[r.Intn(len(bfdIfs))] // one link gets most of the events
@@ -168,9 +171,20 @@ func (c *c15) history(hidx int) {
 		case x < 34:
 			st := []int{0, 1, 1, 2, 2, 3, 3, 3}[r.Intn(8)]
 			evs = append(evs, ldEvent{kind: "recv", ifID: id, state: st})
-		case x < 38:
-			evs = append(evs, ldEvent{kind: "recvt", ifID: id, state: []int{1, 2, 3}[r.Intn(3)]})
-		case x < 43:
+		case x < 40:
+			// a message followed by the detection time elapsing; only after a plain message on
+			// the same link (see the synchronisation in the recvt case below)
+			kind := "recv"
+			for j := len(evs) - 1; j >= pre; j-- {
+				if (evs[j].kind == "recv" || evs[j].kind == "recvt") && a.linkKey(evs[j].ifID) == a.linkKey(id) {
+					if evs[j].kind == "recv" {
+						kind = "recvt"
+					}
+					break
+				}
+			}
+			evs = append(evs, ldEvent{kind: kind, ifID: id, state: []int{1, 2, 3, 3}[r.Intn(4)]})
+		case x < 45:
 			evs = append(evs, ldEvent{kind: "bad", ifID: id, state: r.Intn(4), badHow: r.Intn(7)})
 		default:
 			kind := []int{0, 0, 0, 1, 1, 2, 3, 3}[r.Intn(8)]
@@ -180,8 +194,6 @@ func (c *c15) history(hidx int) {
 			evs = append(evs, ldEvent{kind: "pkt", sc: sc, raw: raw})
 		}
 	}
-	// a few probes before the sessions run (configured sessions are not up yet)
-	pre := r.Range(0, 4)
 	started := false
 	parked := map[string]int{} // link key -> index of the event whose message the session holds (-1 dummy)
 	nextOn := func(from int, key string) int {
@@ -206,6 +218,11 @@ func (c *c15) history(hidx int) {
 		parked[key] = j
 		return true
 	}
+	defer func() {
+		if !abort && started {
+			c.ohpObservation(a)
+		}
+	}()
 	for k, ev := range evs {
 		if abort {
 			break
@@ -217,7 +234,7 @@ func (c *c15) history(hidx int) {
 		}
 		switch ev.kind {
 		case "recv", "recvt":
-			op := fmt.Sprintf("ld %s %d %d", ev.kind, ev.ifID, ev.state)
+			op := fmt.Sprintf("ld %s %d %d #%d.%d", ev.kind, ev.ifID, ev.state, hidx, k)
 			if !started {
 				continue
 			}
@@ -246,19 +263,16 @@ func (c *c15) history(hidx int) {
 				if ev.kind == "recvt" {
 					// the message is applied once the session knows a remote discriminator again; the
 					// detection-timer branch (1 ms later) resets it to 0 after its transition
+					// (the generator puts a plain message before every recvt on the same link, so the
+					// discriminator is known - non-zero - when this message is released)
 					dl := time.Now().Add(10 * time.Second)
-					for vs.RemoteDisc() == 0 && time.Now().Before(dl) {
-						time.Sleep(100 * time.Microsecond)
-					}
 					for vs.RemoteDisc() != 0 && time.Now().Before(dl) {
 						time.Sleep(100 * time.Microsecond)
 					}
 					if vs.RemoteDisc() != 0 {
 						return fmt.Sprintf("timer-not-fired %d", vs.State())
 					}
-					if d := time.Since(dl.Add(-10 * time.Second)); d > 50*time.Millisecond {
-						fmt.Println("SLOW recvt", d)
-					}
+
 				}
 				if !deliver(nextOn(k, key), key, ev.ifID) {
 					return "lookahead-not-accepted"
@@ -333,7 +347,7 @@ func (c *c15) probe(a, tw *asCfg, ev ldEvent, hidx, k int) {
 		return
 	}
 	ingress := a.ingressOf(sc.via)
-	op := fmt.Sprintf("ld pkt %d %d", ingress, sc.egress)
+	op := fmt.Sprintf("ld pkt %d %d #%d.%d", ingress, sc.egress, hidx, k)
 	var res router.VerifR2Result
 	var scmpOut []byte
 	var serr error
@@ -415,3 +429,24 @@ func describeSCMP(raw []byte) string {
 }
 
 var _ = addr.IA(0)
+
+// ohpObservation records (without judging) what the router does with a valid one-hop packet from the
+// internal network whose first hop leaves through a link that is currently down. processOHP does not
+// consult the link state; whether the statement covers one-hop packets is for the lead to decide.
+func (c *c15) ohpObservation(a *asCfg) {
+	for _, id := range []uint16{ifP, ifC, ifK} {
+		up, why := a.ifUp(id)
+		if up {
+			continue
+		}
+		i := a.ifByID(id)
+		info := path.InfoField{ConsDir: true, SegID: 7, Timestamp: nowSec() - 5}
+		first := path.HopField{ConsEgress: id, ExpTime: 63}
+		copy(first.Mac[:], hopMacFull(a.key, info.SegID, info.Timestamp, first.ExpTime, 0, id)[:6])
+		q := ohpParams{src: a.ia, dst: i.nb, srcHost: hostIP("10.1.1.1"), dk: dIP4, p: onehop.Path{Info: info, FirstHop: first}, l4: l4UDP}
+		res := a.dp.Process(q.raw(c.r), 0)
+		key := fmt.Sprintf("ohp-over-down-link/%s/disp%d", why, res.Disp)
+		n, _ := c.e.Extra[key].(int)
+		c.e.Extra[key] = n + 1
+	}
+}
